@@ -29,7 +29,8 @@ theorem encodedBytesRaw_eq (n : Nat) : (Gen.encodedBytesRaw n).toNat = n := by
 
 theorem encodedBytesB64_eq (n : Nat) : (Gen.encodedBytesB64 n).toNat = 4 * ((n + 2) / 3) := by
   unfold Gen.encodedBytesB64
-  rw [Int.fdiv_eq_ediv_of_nonneg _ (by decide)]
+  -- robust against equivalent reformulations of the source expression (e.g. `(n + 2) // 3 * 4`)
+  try simp only [Int.fdiv_eq_ediv_of_nonneg _ (show (0 : Int) ≤ 3 by decide)]
   omega
 
 theorem rawLaws : EncLaws rawEncoder where
